@@ -12,7 +12,7 @@ import uuid
 from harness import core, fmt_vhdx
 from harness.core import Z, zpairs
 from harness.main import Finding, Suite
-from harness.props import c02, c03, c04, c05, c06, c17
+from harness.props import c01, c02, c03, c04, c05, c06, c17
 import zlib
 from harness.readers import outcome_of
 
@@ -169,6 +169,21 @@ class Mutants(Suite):
         sf = fmt_vhdx.build(c)
         # only the first 4 KiB of the big zero-padded metadata chunks matter
         out["vhdx"] = ({o: b[:max(512, min(len(b), 0x10000 + 256))] for o, b in sf._chunks}, sf.size, sf.salt)
+        for want in ("std", "ext"):
+            for _ in range(500):
+                c = c01.gen_case(rng, "quick")
+                if bool(c["ext"]) == (want == "ext") and not c["datafile"] and c["backing"] is None \
+                        and c["file_size"] < 16 * MB and c["size"] < 4 * MB:
+                    break
+            fh, _, _ = c01.build_files(c)
+            out["qcow2_" + want] = ({o: b for o, b in fh._chunks}, fh.size, fh.salt)
+        for kind in ("hosted", "cowd", "sesparse"):
+            for _ in range(500):
+                c = c02.gen_sparse(rng, "quick", kind)
+                if not c["huge"] and c["fsize"] < 8 * MB:
+                    break
+            fh, _ = c02.build_image(c)
+            out["vmdk_" + kind] = ({o: b for o, b in fh._chunks}, fh.size, fh.salt)
         for fn, key in (("test.vmcx", "hyperv_vmcx"), ("test.VMRS", "hyperv_vmrs"), ("local.tgz.ve", "envelope")):
             buf = open(os.path.join(DATA, fn), "rb").read()
             out[key] = ({0: buf}, len(buf), None)
@@ -254,9 +269,12 @@ class Mutants(Suite):
             elif fmt == "vhdx":
                 from dissect.hypervisor.disk.vhdx import VHDX
                 n = exercise(VHDX(sf))
-            elif fmt == "sesparse":
+            elif fmt == "sesparse" or fmt.startswith("vmdk_"):
                 from dissect.hypervisor.disk.vmdk import VMDK
                 n = exercise(VMDK(sf))
+            elif fmt.startswith("qcow2"):
+                from dissect.hypervisor.disk.qcow2 import QCow2
+                n = exercise(QCow2(sf))
             elif fmt.startswith("hyperv"):
                 from dissect.hypervisor.descriptor.hyperv import HyperVFile
                 n = len(str(HyperVFile(io.BytesIO(sf.content(0, sf.size))).as_dict()))
